@@ -234,40 +234,46 @@ theorem C20_mean_not_a_discrepancy :
 theorem C20_mean_cancels : mean ([0, 2] : List α) [1, 1] = 0 := by
   simp [mean, vmean, vsub, vsum]; norm_num
 
-/-- F-C20-3  with a ZERO scale (constant data: `data.std() == 0`) the scaled loss no longer sees the prediction
-at all — in the model `x / 0 = 0` makes it 0 for every prediction; in Python it is NaN for every prediction.
-Either way it is not a discrepancy measure, so the full statement (without `s ≠ 0`) is false. -/
-theorem C20_scaled_loss_degenerate_scale :
-    ¬ ∀ (m s : α) (d p : List α), d.length = p.length →
-        (settingsLoss mean_squared true m s d p = 0 ↔ p = d) := by
-  intro h
-  have := (h 0 0 [1] [2] rfl).mp (by simp [settingsLoss, mean_squared, vmap, vmean, vsquare, vsub, vsum])
-  simp at this
+/-- generated-table obligation: `_Settings.scale` takes a spread that is not positive as 1 -/
+theorem C20_scale_is_guarded : Gen.scaleGuard = true := rfl
 
-/-- STANDARD SCALING keeps the minimiser (partial: excludes exactly the zero-scale class): with a non-zero scale, the scaled mean_squared loss is still ≥ 0 and
-0 exactly when the prediction reproduces the data (the scaling is the same affine bijection on both sides). -/
-theorem C20_scaled_loss_zero_iff_partial (m s : α) (hs : s ≠ 0) (d p : List α) (hl : d.length = p.length) :
+/-- STANDARD SCALING keeps the minimiser, for EVERY mean and spread: the scaled mean_squared loss is ≥ 0 and 0
+exactly when the prediction reproduces the data (the scaling is the same affine bijection on both sides; a
+constant column or a single measurement, whose spread is not positive, is compared unscaled). -/
+theorem C20_scaled_loss_zero_iff (m s : α) (d p : List α) (hl : d.length = p.length) :
     0 ≤ settingsLoss mean_squared true m s d p ∧ (settingsLoss mean_squared true m s d p = 0 ↔ p = d) := by
-  simp only [settingsLoss, if_true]
-  have hl' : (vmap (fun x => (x - m) / s) d).length = (vmap (fun x => (x - m) / s) p).length := by
+  have hs : effScale Gen.scaleGuard s ≠ 0 := by
+    simp only [effScale, C20_scale_is_guarded, if_true, Nat.cast_zero, Nat.cast_one]
+    split
+    · rename_i h; exact ne_of_gt h
+    · exact one_ne_zero
+  simp only [settingsLoss, scaledLoss, if_true]
+  generalize effScale Gen.scaleGuard s = e at hs
+  have hl' : (vmap (fun x => (x - m) / e) d).length = (vmap (fun x => (x - m) / e) p).length := by
     simp [vmap, hl]
-  have := C20_mean_squared_nonneg_zero_iff (vmap (fun x => (x - m) / s) d) (vmap (fun x => (x - m) / s) p) hl'
+  have := C20_mean_squared_nonneg_zero_iff (vmap (fun x => (x - m) / e) d) (vmap (fun x => (x - m) / e) p) hl'
   refine ⟨this.1, this.2.trans ?_⟩
-  have inj : Function.Injective (fun x : α => (x - m) / s) := by
+  have inj : Function.Injective (fun x : α => (x - m) / e) := by
     intro a b hab
-    have := congrArg (· * s) hab
+    have := congrArg (· * e) hab
     simp only [div_mul_cancel₀ _ hs] at this
     linarith
   exact (List.map_injective_iff.mpr inj).eq_iff
 
-/-- non-vacuity: data [1, 3] has mean 2 and sample standard deviation √2 ≠ 0; any non-zero scale will do -/
-example : (2 : α) ≠ 0 ∧ settingsLoss mean_squared true 2 2 ([1, 3] : List α) [1, 3] = 0 :=
-  ⟨two_ne_zero, ((C20_scaled_loss_zero_iff_partial 2 2 two_ne_zero [1, 3] [1, 3] rfl).2).mpr rfl⟩
+/-- the pinned tree divided by the raw `data.std()`: with a zero spread the scaled loss no longer sees the
+prediction (0 for every prediction in the model, NaN in Python) — kept as the reason the repair exists -/
+theorem C20_unguarded_scale_degenerate :
+    ¬ ∀ (m s : α) (d p : List α), d.length = p.length →
+        (scaledLoss false mean_squared true m s d p = 0 ↔ p = d) := by
+  intro h
+  have := (h 0 0 [1] [2] rfl).mp
+    (by simp [scaledLoss, effScale, mean_squared, vmap, vmean, vsquare, vsub, vsum])
+  simp at this
 
 /-- without scaling the wrapper IS the loss, data first -/
 theorem C20_unscaled_loss (L : List α → List α → α) (m s : α) (d p : List α) :
     settingsLoss L false m s d p = L d p := by
-  simp [settingsLoss]
+  simp [settingsLoss, scaledLoss]
 
 end field
 
